@@ -64,6 +64,7 @@ GEN_LEAN = os.path.join(GEN_DIR, "MjbLayout.lean")
 GEN_JSON = os.path.join(GEN_DIR, "MjbLayout.json")
 ALLOC_CAP = 256 << 20  # harness/c/c31_mjb.c: alloc_cap
 QUICK_SAMPLED_PER_MODEL = 260
+THOROUGH_SAMPLED_PER_MODEL = 3000
 
 # ------------------------------------------------------------------------------------------ hand-written list
 # Index-valued int arrays of mjModel (include/mujoco/mjmodel.h), written by hand from the field comments:
@@ -650,7 +651,7 @@ def run(ctx):
     ctx.extra["table_rows_allow_minus_one"] = "all %d rows of MJMODEL_REFERENCES accept -1 (adrsmin < -1 is the only lower test)" % len(info["refs"])
 
     # ---- models, first pass: compile + dump with the real code
-    nmodels = 12 if thorough else 4
+    nmodels = 8 if thorough else 4
     descs = [gen_model(ctx.rng, k) for k in range(nmodels)]
     first = []
     for d in descs:
@@ -682,18 +683,17 @@ def run(ctx):
     for k, d, dump, img in models:
         lines += ["model %s | %s" % (d, dump), "size", "save", "load"]
         meta += [("model", k), ("size", k), ("save", k), ("load", k)]
-        exhaustive = thorough and nexh < 5 and img.total < 40000
+        exhaustive = thorough and nexh < 5 and img.total < 14000
         nexh += exhaustive
         for l in trunc_lines(ctx, img, thorough, exhaustive):
             lines.append(l)
             meta.append(("trunc", k))
         cases = corruption_cases(ctx, info, img, thorough, fields, info["refs"], canonical_resize=(k == models[0][0]))
-        if not thorough:
-            # quick tier: bound the number of loads per model
-            keep = [c for c in cases if c["canonical"]]
-            rest = [c for c in cases if not c["canonical"]]
-            ctx.rng.shuffle(rest)
-            cases = keep + rest[:QUICK_SAMPLED_PER_MODEL]
+        # bound the number of loads per model: all canonical probes + a seeded sample of the rest
+        keep = [c for c in cases if c["canonical"]]
+        rest = [c for c in cases if not c["canonical"]]
+        ctx.rng.shuffle(rest)
+        cases = keep + rest[:(THOROUGH_SAMPLED_PER_MODEL if thorough else QUICK_SAMPLED_PER_MODEL)]
         for c in cases:
             lines.append("load " + c["edits"])
             meta.append(("corrupt", k, c))
